@@ -572,7 +572,7 @@ impl<'t> DocGen<'t> {
         // (1.0.0 / 1.1.0 / 1.2.0), so that three versions of one interface meet in one document
         const TRACK: &[&str] = &[
             "test:logger", "test:logger11", "test:store", "test:app", "test:app11", "test:mixer",
-            "test:nav", "test:navimpl", "test:conflict",
+            "test:nav", "test:navimpl", "test:conflict", "odd:track-nest-a", "odd:track-nest-b", "odd:track-nest-c",
         ];
         let li = if self.t.chance(1, 2) {
             let track: Vec<usize> = comps.iter().copied().filter(|i| TRACK.contains(&lib[*i].name)).collect();
@@ -1016,6 +1016,8 @@ pub const HANDWRITTEN: &[(&str, &str)] = &[
     ("doc:odd", include_str!("docs/odd.wac")),
     ("doc:targets", include_str!("docs/targets.wac")),
     ("doc:worlds", include_str!("docs/worlds.wac")),
+    ("doc:tracks", include_str!("docs/tracks.wac")),
+    ("doc:tracks2", include_str!("docs/tracks2.wac")),
 ];
 
 pub fn handwritten_cases() -> Vec<DocCase> {
